@@ -59,3 +59,87 @@ package mergedlocrib
 //@   requires rc != nil
 //@   ensures result == len(rc.sources)
 //@   modifies nothing
+
+// The merged table, key by key: the container stored under a key has at least
+// one source (a route whose last source went is deleted) and no source twice.
+// The route hash is an uninterpreted function of the API route object
+// (protobuf marshalling and SHA-1 are not modelled). That two keys never share
+// a container or a source list (so that work on one key leaves the others'
+// sources alone) is not under contract.
+//@ spec
+//@ func spec_h(r *routeapi.Route) [sha1.Size]byte {
+//@ 	return verif_uf_val[[sha1.Size]byte]("hashRoute", r)
+//@ }
+//@ func spec_hasKey(rtm *MergedLocRIB, h [sha1.Size]byte) bool {
+//@ 	_, ok := rtm.routes[h]
+//@ 	return ok
+//@ }
+//@ func spec_okRC(rc *routeContainer) bool {
+//@ 	return rc != nil && len(rc.sources) >= 1 && spec_nodup(rc)
+//@ }
+//@ // the entry under key h, if there is one, is well-formed
+//@ func spec_okKey(rtm *MergedLocRIB, h [sha1.Size]byte) bool {
+//@ 	return !spec_hasKey(rtm, h) || spec_okRC(rtm.routes[h])
+//@ }
+//@ end
+
+//@ contract New
+//@   props C29
+//@   ensures result != nil && result.routes != nil && len(result.routes) == 0 && result.locRIB == locRIB
+
+//@ contract hashRoute
+//@   props C29
+//@   trusted protobuf marshalling and SHA-1 are not modelled: the hash is an uninterpreted function of the route object
+//@   ensures result1 == nil ==> result0 == spec_h(route)
+//@   modifies nothing
+
+// Removing a source from the route under key h: the key goes exactly when no
+// other source remains, and the Loc-RIB is told only then. Which keys exist
+// otherwise, and which containers they hold, does not change.
+//@ contract (*MergedLocRIB)._delRoute
+//@   props C29
+//@   nosafety
+//@   requires rtm != nil && rtm.routes != nil && spec_hasKey(rtm, h) && spec_okKey(rtm, h)
+//@   logical x interface{}
+//@   logical g [sha1.Size]byte
+//@   old hadx bool = spec_hasSrc(rtm.routes[h], x)
+//@   old hadg bool = spec_hasKey(rtm, g)
+//@   old rcg *routeContainer = rtm.routes[g]
+//@   ensures spec_okKey(rtm, h)
+//@   ensures g != h ==> spec_hasKey(rtm, g) == hadg && rtm.routes[g] == rcg
+//@   ensures spec_hasKey(rtm, h) ==> spec_hasSrc(rtm.routes[h], x) == (hadx && x != src)
+//@   ensures !spec_hasKey(rtm, h) ==> !(hadx && x != src)
+//@   call LocRIB.RemovePath requires len(rtm.routes[h].sources) == 0
+
+// Advertising: afterwards the route is stored with cc among its sources; the
+// Loc-RIB is told only when the route was not stored before.
+//@ contract (*MergedLocRIB).AddRoute
+//@   props C29
+//@   nosafety
+//@   requires rtm != nil && r != nil && rtm.routes != nil && spec_okKey(rtm, spec_h(r))
+//@   logical x interface{}
+//@   logical g [sha1.Size]byte
+//@   old hadKey bool = spec_hasKey(rtm, spec_h(r))
+//@   old hadx bool = spec_hasKey(rtm, spec_h(r)) && spec_hasSrc(rtm.routes[spec_h(r)], x)
+//@   old hadg bool = spec_hasKey(rtm, g)
+//@   old rcg *routeContainer = rtm.routes[g]
+//@   ensures spec_okKey(rtm, spec_h(r))
+//@   ensures result == nil ==> spec_hasKey(rtm, spec_h(r)) && spec_hasSrc(rtm.routes[spec_h(r)], x) == (hadx || x == cc)
+//@   ensures result != nil || g != spec_h(r) ==> spec_hasKey(rtm, g) == hadg && rtm.routes[g] == rcg
+//@   call LocRIB.AddPath requires !hadKey
+
+// Withdrawing: cc is no longer a source of the route; the route stays exactly
+// when another source remains.
+//@ contract (*MergedLocRIB).RemoveRoute
+//@   props C29
+//@   nosafety
+//@   requires rtm != nil && r != nil && rtm.routes != nil && spec_okKey(rtm, spec_h(r))
+//@   logical x interface{}
+//@   logical g [sha1.Size]byte
+//@   old hadx bool = spec_hasKey(rtm, spec_h(r)) && spec_hasSrc(rtm.routes[spec_h(r)], x)
+//@   old hadg bool = spec_hasKey(rtm, g)
+//@   old rcg *routeContainer = rtm.routes[g]
+//@   ensures spec_okKey(rtm, spec_h(r))
+//@   ensures result == nil && spec_hasKey(rtm, spec_h(r)) ==> spec_hasSrc(rtm.routes[spec_h(r)], x) == (hadx && x != cc)
+//@   ensures result == nil && !spec_hasKey(rtm, spec_h(r)) ==> !(hadx && x != cc)
+//@   ensures result != nil || g != spec_h(r) ==> spec_hasKey(rtm, g) == hadg && rtm.routes[g] == rcg
